@@ -230,7 +230,7 @@ def run_history(kind, ops):
     """-> list of {'r': ['ok', rval] | ['err', cls], 's': snapshot | None (= unchanged)}"""
     b = Backend(kind)
     out = []
-    last = None
+    last = [[], []] if kind == 'shared' else []      # the empty store
     for op in ops:
         op_in = copy.deepcopy(op)
         try:
